@@ -5,6 +5,7 @@ import (
 	"bytes"
 	"crypto"
 	"crypto/ecdsa"
+	"crypto/ed25519"
 	"crypto/rsa"
 	"crypto/sha256"
 	"encoding/base64"
@@ -20,8 +21,10 @@ import (
 	"pgregory.net/rapid"
 
 	"verif/internal/ctfex"
+	"verif/internal/derx"
 	"verif/internal/harness"
 	"verif/internal/keys"
+	"verif/internal/memstore"
 	"verif/internal/reflog"
 	"verif/internal/rfc6962"
 	"verif/internal/world"
@@ -42,15 +45,25 @@ type Case struct {
 	ClockNs    int64
 	Steps      []Step
 	QuotaUsers bool // configure RemoteQuotaUser and CertificateQuotaUser (per-issuer quota charging)
+	Indirect   bool // external issuance-chain storage: the backend leaf carries the hash of the chain, the chain goes to storage
+	// BrokenWrites lists (as indices into the sequence of submissions) requests whose client hangs up: the
+	// response write fails. Whatever happens to them, later answers must be untouched by it.
+	BrokenWrites []int
 }
 
-var logKinds = []string{"p256", "p256", "p384", "rsa2048", "rsa3072"}
+// ed25519 is not an RFC 6962 log key type: a log so configured may refuse to issue, but if it answers 200
+// the SCT must verify like any other.
+var logKinds = []string{"p256", "p256", "p384", "rsa2048", "rsa3072", "ed25519"}
 
 func gen(t *rapid.T) Case {
 	c := Case{LogKeyKind: rapid.SampledFrom(logKinds).Draw(t, "logkey"), LogKeyIdx: rapid.IntRange(0, 3).Draw(t, "logkeyidx")}
 	// any instant from 1970 to ~2200 with sub-millisecond parts
 	c.ClockNs = rapid.Int64Range(0, 7258118400).Draw(t, "sec")*1e9 + rapid.Int64Range(0, 999999999).Draw(t, "ns")
 	c.QuotaUsers = rapid.Bool().Draw(t, "quota")
+	c.Indirect = rapid.IntRange(0, 3).Draw(t, "indirect") == 0
+	for i, nb := 0, rapid.IntRange(0, 2).Draw(t, "nbroken"); i < nb; i++ {
+		c.BrokenWrites = append(c.BrokenWrites, rapid.IntRange(0, 6).Draw(t, "broken"))
+	}
 	n := rapid.IntRange(1, 8).Draw(t, "steps")
 	fresh := 0
 	for i := 0; i < n; i++ {
@@ -104,7 +117,7 @@ func body(chain [][]byte) []byte {
 
 // verifySig checks a TLS DigitallySigned (sha256 + ecdsa|rsa) over msg with stdlib crypto only.
 func verifySig(pub crypto.PublicKey, ds rfc6962.DigitallySigned, msg []byte) error {
-	if ds.Hash != 4 {
+	if _, isEd := pub.(ed25519.PublicKey); !isEd && ds.Hash != 4 {
 		return fmt.Errorf("hash algorithm %d, want sha256(4)", ds.Hash)
 	}
 	h := sha256.Sum256(msg)
@@ -123,20 +136,62 @@ func verifySig(pub crypto.PublicKey, ds rfc6962.DigitallySigned, msg []byte) err
 		if err := rsa.VerifyPKCS1v15(k, crypto.SHA256, h[:], ds.Signature); err != nil {
 			return err
 		}
+	case ed25519.PublicKey:
+		// not an RFC 6962 algorithm: whatever code points are used, the signature must verify over the input
+		if !ed25519.Verify(k, msg, ds.Signature) {
+			return fmt.Errorf("Ed25519 signature does not verify over the signature input")
+		}
 	default:
 		return fmt.Errorf("unexpected key type %T", pub)
 	}
 	return nil
 }
 
+// storedChainDER is what the external storage must hold for a submission: the DER SEQUENCE OF
+// SEQUENCE { OCTET STRING } of the certificates after the leaf (asn1.Marshal of []ct.ASN1Cert).
+func storedChainDER(b *world.Built) []byte {
+	var parts [][]byte
+	for _, c := range b.Full[1:] {
+		parts = append(parts, derx.Seq(derx.Octets(c)))
+	}
+	return derx.Seq(parts...)
+}
+
+// hashFormExtraData is the TLS encoding of CertificateChainHash / PrecertChainEntryHash (types.go): an
+// opaque<0..256> hash (2-byte length), preceded for precertificates by the ASN.1Cert<1..2^24-1>.
+func hashFormExtraData(b *world.Built) ([]byte, string) {
+	sum := sha256.Sum256(storedChainDER(b))
+	var out []byte
+	if b.Spec.Precert {
+		l := len(b.Full[0])
+		out = append(out, byte(l>>16), byte(l>>8), byte(l))
+		out = append(out, b.Full[0]...)
+	}
+	out = append(out, 0, 32)
+	out = append(out, sum[:]...)
+	return out, string(sum[:])
+}
+
 func check(t *testing.T, c Case) (v harness.Verdict) {
 	logKey := keys.Pick(c.LogKeyKind, c.LogKeyIdx)
 	be := reflog.New(6962, 1)
 	clock := ctfex.NewClock(time.Unix(0, c.ClockNs))
-	inst, err := ctfex.New(ctfex.Opts{LogKey: logKey, Roots: world.Roots(), Backend: be, Clock: clock, Inst: quotaOpts(c.QuotaUsers)})
+	o := ctfex.Opts{LogKey: logKey, Roots: world.Roots(), Backend: be, Clock: clock, Inst: quotaOpts(c.QuotaUsers)}
+	var store *memstore.Store
+	if c.Indirect {
+		store = memstore.New()
+		o.ChainStorage = store
+		v.Class("external-chain-storage")
+	}
+	inst, err := ctfex.New(o)
 	if err != nil {
 		t.Fatalf("instance: %v", err)
 	}
+	broken := map[int]bool{}
+	for _, b := range c.BrokenWrites {
+		broken[b] = true
+	}
+	nSubmit := 0
 	if c.QuotaUsers {
 		v.Class("quota-users-configured")
 	}
@@ -157,8 +212,27 @@ func check(t *testing.T, c Case) (v harness.Verdict) {
 		nQueue := len(be.CallsOf("QueueLeaf"))
 		nEv := len(inst.Spy.Events)
 		nowMs := uint64(clock.Now().UnixMilli())
+		nSubmit++
+		if broken[nSubmit-1] {
+			// this client hangs up before the response is written; nothing is judged about this request
+			inst.FailWrites = true
+			inst.Post(path, body(chain))
+			inst.FailWrites = false
+			v.Class("client-hung-up")
+			if dupOf == nil {
+				// the entry may or may not have been queued; remember it as a first submission only if it was
+				if q := be.CallsOf("QueueLeaf"); len(q) == nQueue+1 {
+					firsts = append(firsts, first{b, nowMs})
+				}
+			}
+			return
+		}
 		rsp := inst.Post(path, body(chain))
 		if rsp.Status != 200 {
+			if c.LogKeyKind == "ed25519" && rsp.Status >= 500 {
+				v.Class("ed25519-log-key-refused")
+				return
+			}
 			v.Failf("valid-chain-refused", "step %d: %s answered %d: %s", i, path, rsp.Status, rsp.Body)
 			return
 		}
@@ -214,8 +288,22 @@ func check(t *testing.T, c Case) (v harness.Verdict) {
 		if !bytes.Equal(leaf.GetLeafIdentityHash(), idh[:]) {
 			v.Failf("identity-hash", "step %d: LeafIdentityHash %x, want SHA-256(leaf certificate) %x", i, leaf.GetLeafIdentityHash(), idh)
 		}
-		if !bytes.Equal(leaf.GetExtraData(), b.ExtraData()) {
-			v.Failf("extra-data", "step %d (%s): ExtraData differs from the RFC 6962 chain encoding of the validated chain (root included)", i, describe(b))
+		if !c.Indirect {
+			if !bytes.Equal(leaf.GetExtraData(), b.ExtraData()) {
+				v.Failf("extra-data", "step %d (%s): ExtraData differs from the RFC 6962 chain encoding of the validated chain (root included)", i, describe(b))
+			}
+		} else {
+			// hash-addressed form: (the submitted precertificate and) the SHA-256 of the stored chain; the chain
+			// itself - every certificate after the leaf, root included - must be in storage under that hash
+			want, key := hashFormExtraData(b)
+			if !bytes.Equal(leaf.GetExtraData(), want) {
+				v.Failf("extra-data-hash-form", "step %d (%s): ExtraData is not the hash-addressed form of the validated chain", i, describe(b))
+			}
+			if stored, ok := store.M[key]; !ok {
+				v.Failf("chain-not-stored", "step %d (%s): a 200 was answered but the issuance chain is not in storage under its hash", i, describe(b))
+			} else if !bytes.Equal(stored, storedChainDER(b)) {
+				v.Failf("chain-stored-wrong", "step %d (%s): the chain stored under the hash is not the validated chain (root included)", i, describe(b))
+			}
 		}
 		// (4) timestamp
 		if dupOf == nil {
